@@ -26,7 +26,7 @@ pub fn h_pattern() {
 /// structured patterns: operators, braces, globs and long digit runs
 pub fn h_pattern_tokens() {
     let mut p = String::new();
-    let n = sym::choose("ntok", sym::bound(4, 5) + 1);
+    let n = sym::choose("ntok", sym::bound(3, 4) + 1);
     let mut i = 0;
     while i < n {
         match sym::choose("tok", 10) {
@@ -37,7 +37,10 @@ pub fn h_pattern_tokens() {
             4 => p.push(','),
             5 => p.push_str("[0-9]*"),
             6 => p.push('-'),
-            7 => p.push_str(&sym::any_str("digits", "hex:30-39", 1, 20)),
+            7 => {
+                let len = [1usize, 18, 19, 20][sym::choose("ndigits", 4)];
+                p.push_str(&sym::any_str("digits", "hex:30-39", len, len));
+            }
             8 => p.push_str("é"),
             _ => p.push_str(&sym::any_str("c", "set:a.[*?nb", 1, 1)),
         }
@@ -45,7 +48,10 @@ pub fn h_pattern_tokens() {
     }
     let name = match sym::choose("name", 3) {
         0 => "a-1".to_string(),
-        1 => format!("a-{}", sym::any_str("ndigits", "hex:30-39", 1, 20)),
+        1 => {
+            let len = [1usize, 19, 20][sym::choose("nlen", 3)];
+            format!("a-{}", sym::any_str("ndigits", "hex:30-39", len, len))
+        }
         _ => sym::any_str("n", "set:a-1é", 0, 3),
     };
     if let Ok(c) = Pattern::new(&p) {
@@ -56,7 +62,7 @@ pub fn h_pattern_tokens() {
 }
 
 pub fn h_names() {
-    let s = sym::any_str("s", "utf8", 0, sym::bound(4, 5));
+    let s = sym::any_str("s", "utf8", 0, sym::bound(3, 5));
     let n = PkgName::new(&s);
     let _ = (n.pkgbase().len(), n.pkgversion().len(), n.pkgrevision());
     let _ = PkgPath::new(&s);
@@ -81,17 +87,23 @@ pub fn h_summary_text() {
     let n = sym::choose("nlines", sym::bound(2, 3) + 1);
     let mut i = 0;
     while i < n {
-        match sym::choose("name", 4) {
-            0 => t.push_str(c07::NAMES[sym::choose("which", 23)]),
-            1 => t.push_str(&sym::any_str("nm", "utf8-nonl", 0, 2)),
-            2 => t.push_str("SIZE_PKG"),
+        let kind = sym::choose("name", 5);
+        match kind {
+            0 => t.push_str("COMMENT"),
+            1 => t.push_str("DESCRIPTION"),
+            2 => t.push_str(if i % 2 == 0 { "SIZE_PKG" } else { "FILE_SIZE" }),
+            3 => t.push_str(&sym::any_str("nm", "utf8-nonl", 1, 1)),
             _ => {}
         }
         if sym::choose("eq", 2) == 1 {
             t.push('=');
         }
-        t.push_str(&sym::any_str("val", "set:a=-+9 é", 0, 2));
-        if sym::choose("nl", 3) > 0 {
+        if kind == 2 {
+            t.push_str(&sym::any_str("num", "set:-+9a", 0, 2));
+        } else {
+            t.push_str(&sym::any_str("val", "set:a=é", 0, 1));
+        }
+        if i + 1 < n || sym::choose("nl", 2) == 1 {
             t.push('\n');
         }
         i += 1;
@@ -104,13 +116,13 @@ pub fn h_summary_text() {
 
 pub fn h_summary_stream() {
     let mut s = SummaryStream::new();
-    let k = sym::choose("nwrites", 4);
+    let k = sym::choose("nwrites", sym::bound(3, 4));
     let mut i = 0;
     while i < k {
         let chunk = match sym::choose("kind", 3) {
-            0 => sym::any_bytes("chunk", "bytes", 0, sym::bound(3, 4)),
+            0 => sym::any_bytes("chunk", "bytes", 0, sym::bound(2, 4)),
             1 => b"COMMENT=x\n\n".to_vec(),
-            _ => sym::any_bytes("nl", "hex:0a,3d,41,c3", 0, sym::bound(4, 5)),
+            _ => sym::any_bytes("nl", "hex:0a,3d,41,c3", 0, sym::bound(3, 5)),
         };
         let _ = s.write(&chunk);
         i += 1;
@@ -148,7 +160,7 @@ pub fn h_distinfo_line() {
 pub fn h_plist_line() {
     let mut l: Vec<u8> = Vec::new();
     l.extend_from_slice(super::c14::CMDS[sym::choose("cmd", super::c14::CMDS.len())].as_bytes());
-    l.extend_from_slice(&sym::any_bytes("rest", "bytes", 0, sym::bound(3, 4)));
+    l.extend_from_slice(&sym::any_bytes("rest", "bytes", 0, sym::bound(2, 4)));
     let _ = PlistEntry::from_bytes(&l);
     let _ = Plist::from_bytes(&l).map(|p| (p.files().len(), p.files_prefixed().len(), p.install_cmds().len()));
     sym::check("C17/plist-line-returns", true);
@@ -166,7 +178,7 @@ pub fn h_scanindex() {
             3 => t.extend_from_slice(b"SCAN_DEPENDS="),
             _ => {}
         }
-        t.extend_from_slice(&sym::any_bytes("val", "hex:20,3a,3d,2f,2e,61,3e,7b,c3,a9,ff", 0, sym::bound(3, 4)));
+        t.extend_from_slice(&sym::any_bytes("val", "hex:20,3a,3d,2f,2e,61,3e,7b,c3,a9,ff", 0, sym::bound(2, 4)));
         t.push(b'\n');
         i += 1;
     }
@@ -208,7 +220,7 @@ pub fn h_pkgdb() {
 /// arbitrary short sequences of Summary setter / pusher / getter calls
 pub fn h_summary_calls() {
     let mut s = Summary::new();
-    let k = sym::choose("ncalls", sym::bound(3, 4) + 1);
+    let k = sym::choose("ncalls", sym::bound(2, 3) + 1);
     let mut i = 0;
     while i < k {
         let v = sym::choose("var", 23);
